@@ -78,9 +78,25 @@ def check(ctx):
             if k < 1:
                 ctx.sample(payload)
         # emptiness
-        mode = rng.choice(["as_is", "thin_feasible", "thin_infeasible", "infeasible"])
+        mode = rng.choice(["as_is", "thin_feasible", "thin_infeasible", "infeasible", "box_later_variable_empty", "constant_rows"])
         es = list(ts)
-        if mode != "as_is":
+        if mode == "box_later_variable_empty" and nv < 2:
+            mode = "as_is"
+        if mode == "box_later_variable_empty":
+            # every term bounds one variable; the first variables have proper intervals, a LATER one an empty interval
+            es = []
+            bad = rng.randrange(1, nv)
+            for j, x in enumerate(vs):
+                lo = F(rng.randint(-4, 2))
+                hi = lo + F(rng.randint(1, 4)) if j != bad else lo - F(rng.choice([1, 2]), rng.choice([1, 2, 1024]))
+                es += [({x: F(1)}, hi), ({x: F(-1)}, -lo)]
+            if rng.random() < 0.5:
+                es = es[:2] + sorted(es[2:], key=lambda _: rng.random())
+        elif mode == "constant_rows":
+            # variable-free rows (what a rename that cancels coefficients leaves behind): a false one empties the set, true ones say nothing
+            es = es + [({}, F(rng.choice([-1, -2, 1, 3])))] + ([({}, F(rng.choice([0, 2])))] if rng.random() < 0.6 else [])
+            rng.shuffle(es)
+        elif mode != "as_is":
             t = rng.choice(ts)
             gap = {"thin_feasible": F(1, 2 ** 10), "thin_infeasible": -F(1, 2 ** 10), "infeasible": -F(rng.randint(1, 4))}[mode]
             es = es + [({x: -a for x, a in t[0].items()}, -t[1] + gap)]
